@@ -660,7 +660,7 @@ func (c *Ctx) c18Odometer(pk *packages.Package) {
 	sObj := info.ObjectOf(sID)
 	// --- emit-fold: s := template ; for t := 0; t < len(counter); t++ { s = strings.Replace(s, marker, variable[t][counter[t]], 1) }
 	var seed ast.Expr
-	var fold *ast.ForStmt
+	var fold ast.Stmt // *ast.ForStmt or *ast.RangeStmt
 	for _, st := range list[:emitIdx] {
 		switch x := st.(type) {
 		case *ast.AssignStmt:
@@ -671,6 +671,10 @@ func (c *Ctx) c18Odometer(pk *packages.Package) {
 				}
 			}
 		case *ast.ForStmt:
+			if mentions(info, x, sObj) {
+				fold = x
+			}
+		case *ast.RangeStmt:
 			if mentions(info, x, sObj) {
 				fold = x
 			}
@@ -698,29 +702,20 @@ func (c *Ctx) c18Odometer(pk *packages.Package) {
 		return
 	}
 	// --- last-fastest: first change of counter after the emission is counter[len(counter)-1]++
+	// (written as ++, += 1 or counter[i] = counter[i] + 1)
 	after := list[emitIdx+1:]
 	var iObj types.Object
 	var iInit ast.Expr
-	var firstInc *ast.IncDecStmt
+	var firstInc ast.Stmt
+	var firstIncTarget ast.Expr
+	var firstDelta int64
 	firstIncIdx := -1
 	for k, st := range after {
-		if as, ok := st.(*ast.AssignStmt); ok && len(as.Lhs) == 1 && len(as.Rhs) == 1 {
-			if id, ok := as.Lhs[0].(*ast.Ident); ok && iObj == nil {
-				iObj, iInit = info.ObjectOf(id), as.Rhs[0]
-				continue
-			}
-		}
-		if inc, ok := st.(*ast.IncDecStmt); ok {
-			if _, isC := c18IdxIs(info, inc.X, counter); isC {
-				firstInc, firstIncIdx = inc, k
+		if tgt, d, ok := c18StepOf(c, info, st); ok {
+			if _, isC := c18IdxIs(info, tgt, counter); isC {
+				firstInc, firstIncTarget, firstDelta, firstIncIdx = st, tgt, d, k
 				break
 			}
-		}
-		if _, ok := st.(*ast.IfStmt); ok {
-			if c18WritesTo(info, st, counter) {
-				break
-			}
-			continue
 		}
 		if c18WritesTo(info, st, counter) {
 			break
@@ -730,14 +725,31 @@ func (c *Ctx) c18Odometer(pk *packages.Package) {
 		und("odometer:last-fastest", "no `counter[i]++` at the top level after the emission")
 		return
 	}
-	idx, _ := c18IdxIs(info, firstInc.X, counter)
+	idx, _ := c18IdxIs(info, firstIncTarget, counter)
 	idxID, _ := unparen(idx).(*ast.Ident)
 	var idxExpr ast.Expr = idx
-	if idxID != nil && iObj != nil && info.ObjectOf(idxID) == iObj {
-		idxExpr = iInit
-	} else if idxID != nil {
-		und("odometer:last-fastest", "index variable of the first increment has no single definition after the emission")
-		return
+	if idxID != nil {
+		// the index variable: its (last) plain definition between the emission and the first increment,
+		// with no other store to it in between
+		iObj = info.ObjectOf(idxID)
+		defIdx := -1
+		for k, st := range after[:firstIncIdx] {
+			if as, ok := st.(*ast.AssignStmt); ok && len(as.Lhs) == 1 && len(as.Rhs) == 1 && (as.Tok == token.DEFINE || as.Tok == token.ASSIGN) && c18IsObj(info, as.Lhs[0], iObj) {
+				iInit, defIdx = as.Rhs[0], k
+			}
+		}
+		if defIdx < 0 {
+			und("odometer:last-fastest", "index variable of the first increment has no single definition after the emission")
+			return
+		}
+		for _, st := range after[defIdx+1 : firstIncIdx] {
+			if c18StoresIdent(info, st, iObj) {
+				und("odometer:last-fastest", "index variable of the first increment is modified between its definition and the increment")
+				return
+			}
+		}
+		// `last := len(counter) - 1; i := last`: a single-definition local stands for its definition
+		idxExpr = localDefs(info, fd.Body).resolve1(info, iInit)
 	}
 	// evaluate idxExpr for len(counter) = 1..4
 	lastOK, lastWhy := true, ""
@@ -755,13 +767,15 @@ func (c *Ctx) c18Odometer(pk *packages.Package) {
 			und("odometer:last-fastest", "index of the first increment is not a pure expression over len(counter): %s%s", failMsg, panicMsg)
 			return
 		}
-		if v.k != c17Int || int(v.i) != L-1 || firstInc.Tok != token.INC {
+		if v.k != c17Int || int(v.i) != L-1 || firstDelta != 1 {
 			lastOK = false
-			lastWhy = fmt.Sprintf("with %d blocks the first counter changed after an emission is counter[%s] %s", L, v, firstInc.Tok)
+			lastWhy = fmt.Sprintf("with %d blocks the first counter changed after an emission is counter[%s] %+d", L, v, firstDelta)
 		}
 	}
 	c.Check(lastOK, "R18d", "odometer:last-fastest", firstInc.Pos(), "after each emission the first counter changed is counter[len(counter)-1]++ (index expression %s) %s", c.src(idxExpr), map[bool]string{true: "— the last block varies fastest", false: "— violated: " + lastWhy + "; the product is not in odometer order"}[lastOK])
-	// --- carry: the statement after the first increment is `if counter[i] == len(variable[i]) { reset; i--; if i<0 exit; counter[i]++; … }`
+	// --- carry. Two layouts of the same decision:
+	//   nested:    if counter[i] == len(variable[i]) { L: reset; i--; if i<0 exit; counter[i]++; if <has next> {goto emit} else {goto L} } [else {goto emit}]
+	//   flattened: if <has next> { goto emit } ; L: reset; i--; if i<0 exit; counter[i]++; if <has next> {goto emit} ; goto L
 	var carryIf *ast.IfStmt
 	if firstIncIdx+1 < len(after) {
 		carryIf, _ = after[firstIncIdx+1].(*ast.IfStmt)
@@ -770,33 +784,62 @@ func (c *Ctx) c18Odometer(pk *packages.Package) {
 		und("odometer:carry", "no carry test directly after the first increment")
 		return
 	}
+	emitLabels := map[string]bool{}
+	for _, st := range list[:emitIdx+1] {
+		if ls, ok := st.(*ast.LabeledStmt); ok {
+			emitLabels[ls.Label.Name] = true
+		}
+	}
+	target := func(list []ast.Stmt) string {
+		if len(list) == 1 {
+			if b, ok := list[0].(*ast.BranchStmt); ok && b.Tok == token.GOTO && b.Label != nil {
+				return b.Label.Name
+			}
+		}
+		return ""
+	}
 	// carry condition: semantically `counter[i] >= len(variable[i])` on the reachable values (counter[i] <= len)
 	condOK, condWhy := c.c18CarryCond(pk, carryIf.Cond, counter, variable, iObj, true)
+	carryBody := carryIf.Body.List
+	flattened := false
+	if !condOK && carryIf.Else == nil && carryIf.Init == nil {
+		if hasNext, _ := c.c18CarryCond(pk, carryIf.Cond, counter, variable, iObj, false); hasNext && emitLabels[target(carryIf.Body.List)] {
+			flattened, condOK, condWhy = true, true, ""
+			carryBody = after[firstIncIdx+2:]
+		}
+	}
 	// inside: reset to 0, i--, exit test, increment, continuation test
 	var reset *ast.AssignStmt
-	var step *ast.IncDecStmt
-	var inc2 *ast.IncDecStmt
+	var stepStmt, inc2Stmt ast.Stmt
+	var stepDelta, inc2Delta int64
 	var contIf *ast.IfStmt
+	againLabel := "" // flattened / else-less continuation: the `goto L` that follows the continuation test
+	carryLabel := ""
 	seq := []string{}
-	for _, st := range carryIf.Body.List {
+	for _, st := range carryBody {
+		lbl := ""
 		if ls, ok := st.(*ast.LabeledStmt); ok {
-			st = ls.Stmt
+			st, lbl = ls.Stmt, ls.Label.Name
+		}
+		if tgt, d, ok := c18StepOf(c, info, st); ok {
+			if c18IsObj(info, tgt, iObj) {
+				stepStmt, stepDelta = st, d
+				seq = append(seq, "step")
+				continue
+			} else if ie, ok := c18IdxIs(info, tgt, counter); ok && c18IsObj(info, ie, iObj) {
+				inc2Stmt, inc2Delta = st, d
+				seq = append(seq, "inc")
+				continue
+			}
 		}
 		switch x := st.(type) {
 		case *ast.AssignStmt:
 			if len(x.Lhs) == 1 {
 				if ie, ok := c18IdxIs(info, x.Lhs[0], counter); ok && c18IsObj(info, ie, iObj) && x.Tok == token.ASSIGN {
 					reset = x
+					carryLabel = lbl
 					seq = append(seq, "reset")
 				}
-			}
-		case *ast.IncDecStmt:
-			if c18IsObj(info, x.X, iObj) {
-				step = x
-				seq = append(seq, "step")
-			} else if ie, ok := c18IdxIs(info, x.X, counter); ok && c18IsObj(info, ie, iObj) {
-				inc2 = x
-				seq = append(seq, "inc")
 			}
 		case *ast.IfStmt:
 			if mentions(info, x.Cond, counter) {
@@ -805,9 +848,16 @@ func (c *Ctx) c18Odometer(pk *packages.Package) {
 			} else if mentions(info, x.Cond, iObj) {
 				seq = append(seq, "exit")
 			}
+		case *ast.BranchStmt:
+			if x.Tok == token.GOTO && x.Label != nil && len(seq) > 0 && seq[len(seq)-1] == "cont" {
+				againLabel = x.Label.Name
+				seq = append(seq, "again")
+			} else {
+				seq = append(seq, "branch")
+			}
 		}
 	}
-	if strings.Join(seq, ",") != "reset,step,exit,inc,cont" {
+	if j := strings.Join(seq, ","); j != "reset,step,exit,inc,cont" && j != "reset,step,exit,inc,cont,again" {
 		und("odometer:carry", "carry block is not the sequence reset / step / exit test / increment / continuation test (found %s)", strings.Join(seq, ","))
 		return
 	}
@@ -818,47 +868,48 @@ func (c *Ctx) c18Odometer(pk *packages.Package) {
 	if v, ok := constInt(info, reset.Rhs[0]); !ok || v != 0 {
 		problems = append(problems, "an exhausted block is reset to "+c.src(reset.Rhs[0])+" instead of its first element (0)")
 	}
-	if step.Tok != token.DEC {
-		problems = append(problems, "the carry moves to the block on the right ("+c.src(step)+") instead of the left")
+	if stepDelta != -1 {
+		problems = append(problems, "the carry does not move one block to the left ("+c.src(stepStmt)+")")
 	}
-	if inc2.Tok != token.INC {
-		problems = append(problems, "the carried-into counter is not incremented ("+c.src(inc2)+")")
+	if inc2Delta != 1 {
+		problems = append(problems, "the carried-into counter is not incremented ("+c.src(inc2Stmt)+")")
 	}
-	// continuation: if counter[i] < len(variable[i]) -> emit again (goto nextIndex), else carry again
-	if contOK, contWhy := c.c18CarryCond(pk, contIf.Cond, counter, variable, iObj, false); !contOK {
-		problems = append(problems, "continuation test: "+contWhy)
-	} else if !c18GotoOnly(contIf.Body.List) || contIf.Else == nil {
-		problems = append(problems, "continuation test has no emit-again / carry-again arms")
-	} else {
-		// jump targets: "has a next element" -> back to the emission; "overflows again" -> the reset statement
-		emitLabels := map[string]bool{}
-		for _, st := range list[:emitIdx+1] {
-			if ls, ok := st.(*ast.LabeledStmt); ok {
-				emitLabels[ls.Label.Name] = true
+	// continuation: "has a next element" -> back to the emission; "overflows again" -> the reset statement.
+	// The test may be written either way round; the arm not taken may be an else block or the goto that follows.
+	{
+		hasNext, why1 := c.c18CarryCond(pk, contIf.Cond, counter, variable, iObj, false)
+		overflows := false
+		if !hasNext {
+			overflows, _ = c.c18CarryCond(pk, contIf.Cond, counter, variable, iObj, true)
+		}
+		thenT := target(contIf.Body.List)
+		elseT := ""
+		switch {
+		case contIf.Else != nil && againLabel == "":
+			if eb, _ := contIf.Else.(*ast.BlockStmt); eb != nil {
+				elseT = target(eb.List)
+			}
+		case contIf.Else == nil:
+			elseT = againLabel
+		}
+		nextT, againT := thenT, elseT
+		if overflows {
+			nextT, againT = elseT, thenT
+		}
+		switch {
+		case !hasNext && !overflows:
+			problems = append(problems, "continuation test: "+why1)
+		case !c18GotoOnly(contIf.Body.List) || (contIf.Else == nil && againLabel == ""):
+			problems = append(problems, "continuation test has no emit-again / carry-again arms")
+		default:
+			if !emitLabels[nextT] {
+				problems = append(problems, "when the carried-into block has a next element the code does not jump back to the emission (goto "+nextT+")")
+			}
+			if carryLabel == "" || againT != carryLabel {
+				problems = append(problems, "when the carried-into block overflows as well the code does not carry again (the other arm must jump to the reset statement)")
 			}
 		}
-		carryLabel := ""
-		for _, st := range carryIf.Body.List {
-			if ls, ok := st.(*ast.LabeledStmt); ok && ls.Stmt == ast.Stmt(reset) {
-				carryLabel = ls.Label.Name
-			}
-		}
-		target := func(list []ast.Stmt) string {
-			if len(list) == 1 {
-				if b, ok := list[0].(*ast.BranchStmt); ok && b.Tok == token.GOTO && b.Label != nil {
-					return b.Label.Name
-				}
-			}
-			return ""
-		}
-		if t := target(contIf.Body.List); !emitLabels[t] {
-			problems = append(problems, "when the carried-into block has a next element the code does not jump back to the emission (goto "+t+")")
-		}
-		eb, _ := contIf.Else.(*ast.BlockStmt)
-		if eb == nil || carryLabel == "" || target(eb.List) != carryLabel {
-			problems = append(problems, "when the carried-into block overflows as well the code does not carry again (the else arm must jump to the reset statement)")
-		}
-		if carryIf.Else != nil {
+		if !flattened && carryIf.Else != nil {
 			ob, _ := carryIf.Else.(*ast.BlockStmt)
 			if ob == nil || !emitLabels[target(ob.List)] {
 				problems = append(problems, "when the last block has a next element the code does not go back to the emission")
@@ -893,7 +944,8 @@ func (c *Ctx) c18Odometer(pk *packages.Package) {
 					isCancel = true
 				}
 			}
-			if f.True && iObj != nil && c18IsNegTest(c, pk, f.E, iObj) {
+			// a fact `e is true` with e ≡ i < 0, or `e is false` with e ≡ i >= 0 (`if !(i >= 0) { goto … }`)
+			if iObj != nil && c18IsNegTest(c, pk, f.E, iObj, f.True) {
 				isNeg = true
 			}
 		}
@@ -941,7 +993,7 @@ func (c *Ctx) c18Odometer(pk *packages.Package) {
 	// --- block numbering: one marker and one new block per opening bracket, the first block is number 0
 	// (counter has len(variable) entries and the substitution loop visits blocks 0..len-1)
 	var lObj types.Object
-	var lInc *ast.IncDecStmt
+	var lIncDelta int64
 	ast.Inspect(fd.Body, func(n ast.Node) bool {
 		as, ok := n.(*ast.AssignStmt)
 		if !ok || len(as.Lhs) != 1 || len(as.Rhs) != 1 {
@@ -963,9 +1015,13 @@ func (c *Ctx) c18Odometer(pk *packages.Package) {
 	var openClause *ast.CaseClause
 	nInc := 0
 	walkStack(fd.Body, func(n ast.Node, stack []ast.Node) bool {
-		if inc, ok := n.(*ast.IncDecStmt); ok && c18IsObj(info, inc.X, lObj) {
+		st, isStmt := n.(ast.Stmt)
+		if !isStmt {
+			return true
+		}
+		if tgt, d, ok := c18StepOf(c, info, st); ok && c18IsObj(info, tgt, lObj) {
 			nInc++
-			lInc = inc
+			lIncDelta = d
 			for i := len(stack) - 1; i >= 0; i-- {
 				if cc, ok := stack[i].(*ast.CaseClause); ok {
 					openClause = cc
@@ -1009,8 +1065,75 @@ func (c *Ctx) c18Odometer(pk *packages.Package) {
 			}
 		}
 	}
-	okIdx := nInc == 1 && lInc.Tok == token.INC && lInit == -1 && markerAdded && isOpen
+	okIdx := nInc == 1 && lIncDelta == 1 && lInit == -1 && markerAdded && isOpen
 	c.Check(okIdx, "R18d", "blocks:index", fd.Pos(), "each opening bracket appends one marker to the template and starts block l+1, the first block being number 0 (l starts at %d, %d step(s) of l, marker appended: %v, in the astTypeOpen arm: %v) — otherwise markers and blocks do not line up with counter[0..len(variable))", lInit, nInc, markerAdded, isOpen)
+}
+
+// c18StepOf: st changes x by a constant: x++ / x-- / x += k / x -= k / x = x + k / x = k + x / x = x - k.
+// Returns x and the signed constant.
+func c18StepOf(c *Ctx, info *types.Info, st ast.Stmt) (ast.Expr, int64, bool) {
+	switch x := st.(type) {
+	case *ast.IncDecStmt:
+		if x.Tok == token.INC {
+			return x.X, 1, true
+		}
+		return x.X, -1, true
+	case *ast.AssignStmt:
+		if len(x.Lhs) != 1 || len(x.Rhs) != 1 {
+			return nil, 0, false
+		}
+		switch x.Tok {
+		case token.ADD_ASSIGN, token.SUB_ASSIGN:
+			k, ok := constInt(info, x.Rhs[0])
+			if !ok {
+				return nil, 0, false
+			}
+			if x.Tok == token.SUB_ASSIGN {
+				k = -k
+			}
+			return x.Lhs[0], k, true
+		case token.ASSIGN:
+			b, ok := unparen(x.Rhs[0]).(*ast.BinaryExpr)
+			if !ok || (b.Op != token.ADD && b.Op != token.SUB) {
+				return nil, 0, false
+			}
+			if k, ok := constInt(info, b.Y); ok && c.sameExpr(b.X, x.Lhs[0]) {
+				if b.Op == token.SUB {
+					k = -k
+				}
+				return x.Lhs[0], k, true
+			}
+			if k, ok := constInt(info, b.X); ok && b.Op == token.ADD && c.sameExpr(b.Y, x.Lhs[0]) {
+				return x.Lhs[0], k, true
+			}
+		}
+	}
+	return nil, 0, false
+}
+
+// c18StoresIdent: some statement under n assigns / steps the local obj.
+func c18StoresIdent(info *types.Info, n ast.Node, obj types.Object) bool {
+	w := false
+	ast.Inspect(n, func(x ast.Node) bool {
+		switch s := x.(type) {
+		case *ast.AssignStmt:
+			for _, l := range s.Lhs {
+				if c18IsObj(info, l, obj) {
+					w = true
+				}
+			}
+		case *ast.IncDecStmt:
+			if c18IsObj(info, s.X, obj) {
+				w = true
+			}
+		case *ast.UnaryExpr:
+			if s.Op == token.AND && c18IsObj(info, s.X, obj) {
+				w = true
+			}
+		}
+		return true
+	})
+	return w
 }
 
 func c18IsObj(info *types.Info, e ast.Expr, o types.Object) bool {
@@ -1046,15 +1169,15 @@ func c18GotoOnly(list []ast.Stmt) bool {
 	return ok && (b.Tok == token.GOTO || b.Tok == token.CONTINUE)
 }
 
-// c18IsNegTest: e is semantically `i < 0` on i in [-2,3].
-func c18IsNegTest(c *Ctx, pk *packages.Package, e ast.Expr, iObj types.Object) bool {
+// c18IsNegTest: e is semantically `i < 0` (truth=true) resp. `i >= 0` (truth=false) on i in [-2,3].
+func c18IsNegTest(c *Ctx, pk *packages.Package, e ast.Expr, iObj types.Object, truth bool) bool {
 	for i := -2; i <= 3; i++ {
 		ev := c.c17NewEval(pk, nil)
 		env := c17NewEnv(nil)
 		env.define(iObj, c17IntV(int64(i)))
 		var v c17V
 		f, p := ev.run(func() { v = ev.eval(e, env) })
-		if f != "" || p != "" || v.k != c17Bool || v.b != (i < 0) {
+		if f != "" || p != "" || v.k != c17Bool || v.b != ((i < 0) == truth) {
 			return false
 		}
 	}
@@ -1131,16 +1254,123 @@ func c18EvalWithLen(ev *c17Eval, e ast.Expr, env *c17Env, variable, iObj types.O
 }
 
 // c18Fold recognises the substitution loop and returns "" or the reason it is not the documented fold.
-func (c *Ctx) c18Fold(info *types.Info, fold *ast.ForStmt, sObj types.Object, counter, variable, marker *types.Object) string {
+func (c *Ctx) c18Fold(info *types.Info, foldStmt ast.Stmt, sObj types.Object, counter, variable, marker *types.Object) string {
+	var tObj, valObj types.Object // loop index; (range form) the value variable = counter[t]
+	var body *ast.BlockStmt
+	switch fold := foldStmt.(type) {
+	case *ast.RangeStmt:
+		// for t := range counter / for t, c := range counter: visits t = 0..len(counter)-1 ascending by definition
+		cid, ok := unparen(fold.X).(*ast.Ident)
+		if !ok {
+			return "substitution loop does not range over a local slice"
+		}
+		if _, isSlice := info.TypeOf(cid).Underlying().(*types.Slice); !isSlice {
+			return "substitution loop ranges over something that is not a slice (the iteration order is not the block order)"
+		}
+		*counter = info.ObjectOf(cid)
+		kid, ok := fold.Key.(*ast.Ident)
+		if !ok || fold.Tok != token.DEFINE || kid.Name == "_" {
+			return "substitution loop does not define its index variable"
+		}
+		tObj = info.ObjectOf(kid)
+		if fold.Value != nil {
+			vid, ok := fold.Value.(*ast.Ident)
+			if !ok {
+				return "substitution loop value variable"
+			}
+			if vid.Name != "_" {
+				valObj = info.ObjectOf(vid)
+			}
+		}
+		body = fold.Body
+		// the body must not disturb the iteration: only locals are assigned
+		for _, st := range body.List {
+			if as, ok := st.(*ast.AssignStmt); ok {
+				for _, l := range as.Lhs {
+					if _, isID := unparen(l).(*ast.Ident); !isID {
+						return "substitution loop body stores into something that is not a local"
+					}
+					if c18IsObj(info, l, tObj) || (valObj != nil && c18IsObj(info, l, valObj)) {
+						return "substitution loop body modifies its own loop variables"
+					}
+				}
+			}
+		}
+	case *ast.ForStmt:
+		if why := c.c18FoldHeader(info, fold, counter, &tObj); why != "" {
+			return why
+		}
+		body = fold.Body
+	default:
+		return "no substitution loop"
+	}
+	// body: [c := counter[t];] s = strings.Replace(s, marker, variable[t][c], 1)
+	defs := localDefs(info, body)
+	var rep *ast.CallExpr
+	nAssign := 0
+	for _, st := range body.List {
+		as, ok := st.(*ast.AssignStmt)
+		if !ok {
+			return "substitution loop body contains more than assignments"
+		}
+		if len(as.Lhs) == 1 && c18IsObj(info, as.Lhs[0], sObj) {
+			nAssign++
+			if call, ok := unparen(as.Rhs[0]).(*ast.CallExpr); ok && objIs(callee(info, call), "strings", "", "Replace") {
+				rep = call
+			}
+		}
+	}
+	if rep == nil || nAssign != 1 {
+		return "the emitted string is not built by exactly one strings.Replace per block"
+	}
+	if !c18IsObj(info, rep.Args[0], sObj) {
+		return "strings.Replace does not continue from the partially substituted string"
+	}
+	mid, ok := unparen(rep.Args[1]).(*ast.Ident)
+	if !ok {
+		return "the replaced text is not the marker variable"
+	}
+	*marker = info.ObjectOf(mid)
+	if n, ok := constInt(info, rep.Args[3]); !ok || n != 1 {
+		return "strings.Replace count is " + c.src(rep.Args[3]) + " (must be 1: each block fills exactly one marker; otherwise the first block's element fills every marker)"
+	}
+	// new text: variable[t][counter[t]]
+	outer, ok := unparen(rep.Args[2]).(*ast.IndexExpr)
+	if !ok {
+		return "replacement text is not variable[t][counter[t]]"
+	}
+	inner, ok := unparen(outer.X).(*ast.IndexExpr)
+	if !ok {
+		return "replacement text is not variable[t][counter[t]]"
+	}
+	vid, ok := unparen(inner.X).(*ast.Ident)
+	if !ok || !c18IsObj(info, inner.Index, tObj) {
+		return "replacement text does not select block t (" + c.src(rep.Args[2]) + ")"
+	}
+	*variable = info.ObjectOf(vid)
+	elemIdx := defs.resolve1(info, outer.Index)
+	if valObj != nil && c18IsObj(info, elemIdx, valObj) {
+		return "" // the range value variable is counter[t]
+	}
+	if ie, ok := c18IdxIs(info, elemIdx, *counter); !ok || !c18IsObj(info, ie, tObj) {
+		return "replacement text does not select block t's current element counter[t] (" + c.src(rep.Args[2]) + ")"
+	}
+	return ""
+}
+
+// c18FoldHeader: `for t := <init>; <cond>; <step>` visits t = 0,1,…,len(counter)-1 ascending (decided by
+// running init/cond/step on small lengths). Sets counter (the slice whose len bounds t) and the index variable.
+func (c *Ctx) c18FoldHeader(info *types.Info, fold *ast.ForStmt, counter *types.Object, tOut *types.Object) string {
 	// for t := 0; t < len(counter); t++
 	init, ok := fold.Init.(*ast.AssignStmt)
 	if !ok || init.Tok != token.DEFINE || len(init.Lhs) != 1 {
 		return "substitution loop has no `t := …` initialiser"
 	}
 	tObj := info.ObjectOf(init.Lhs[0].(*ast.Ident))
-	post, ok := fold.Post.(*ast.IncDecStmt)
-	if !ok || !c18IsObj(info, post.X, tObj) {
-		return "substitution loop does not step its index with ++/--"
+	*tOut = tObj
+	postTgt, postDelta, ok := c18StepOf(c, info, fold.Post)
+	if !ok || fold.Post == nil || !c18IsObj(info, postTgt, tObj) {
+		return "substitution loop does not step its index by a constant"
 	}
 	cond, ok := unparen(fold.Cond).(*ast.BinaryExpr)
 	if !ok {
@@ -1187,11 +1417,7 @@ func (c *Ctx) c18Fold(info *types.Info, fold *ast.ForStmt, sObj types.Object, co
 				}
 				cur := *env.lookup(tObj)
 				seq = append(seq, int(cur.i))
-				d := int64(1)
-				if post.Tok == token.DEC {
-					d = -1
-				}
-				env.define(tObj, c17IntV(cur.i+d))
+				env.define(tObj, c17IntV(cur.i+postDelta))
 			}
 		})
 		if f != "" || p != "" {
@@ -1204,54 +1430,6 @@ func (c *Ctx) c18Fold(info *types.Info, fold *ast.ForStmt, sObj types.Object, co
 		if !c17SameInts(seq, want) {
 			return fmt.Sprintf("with %d blocks the markers are substituted in block order %v instead of %v (each substitution replaces the first remaining marker, so block t must be handled t-th)", L, seq, want)
 		}
-	}
-	// body: [c := counter[t];] s = strings.Replace(s, marker, variable[t][c], 1)
-	defs := localDefs(info, fold.Body)
-	var rep *ast.CallExpr
-	nAssign := 0
-	for _, st := range fold.Body.List {
-		as, ok := st.(*ast.AssignStmt)
-		if !ok {
-			return "substitution loop body contains more than assignments"
-		}
-		if len(as.Lhs) == 1 && c18IsObj(info, as.Lhs[0], sObj) {
-			nAssign++
-			if call, ok := unparen(as.Rhs[0]).(*ast.CallExpr); ok && objIs(callee(info, call), "strings", "", "Replace") {
-				rep = call
-			}
-		}
-	}
-	if rep == nil || nAssign != 1 {
-		return "the emitted string is not built by exactly one strings.Replace per block"
-	}
-	if !c18IsObj(info, rep.Args[0], sObj) {
-		return "strings.Replace does not continue from the partially substituted string"
-	}
-	mid, ok := unparen(rep.Args[1]).(*ast.Ident)
-	if !ok {
-		return "the replaced text is not the marker variable"
-	}
-	*marker = info.ObjectOf(mid)
-	if n, ok := constInt(info, rep.Args[3]); !ok || n != 1 {
-		return "strings.Replace count is " + c.src(rep.Args[3]) + " (must be 1: each block fills exactly one marker; otherwise the first block's element fills every marker)"
-	}
-	// new text: variable[t][counter[t]]
-	outer, ok := unparen(rep.Args[2]).(*ast.IndexExpr)
-	if !ok {
-		return "replacement text is not variable[t][counter[t]]"
-	}
-	inner, ok := unparen(outer.X).(*ast.IndexExpr)
-	if !ok {
-		return "replacement text is not variable[t][counter[t]]"
-	}
-	vid, ok := unparen(inner.X).(*ast.Ident)
-	if !ok || !c18IsObj(info, inner.Index, tObj) {
-		return "replacement text does not select block t (" + c.src(rep.Args[2]) + ")"
-	}
-	*variable = info.ObjectOf(vid)
-	elemIdx := defs.resolve1(info, outer.Index)
-	if ie, ok := c18IdxIs(info, elemIdx, *counter); !ok || !c18IsObj(info, ie, tObj) {
-		return "replacement text does not select block t's current element counter[t] (" + c.src(rep.Args[2]) + ")"
 	}
 	return ""
 }
